@@ -16,9 +16,17 @@ from .core import Scratch, ToolError, Verdict, log
 SKIP_VECTORS = {"v7"}      # the opt-in shorthand / literal-spelling rewrites: not ruled yet
 
 
+# families the token projection cannot judge: rustc's pretty printer glues a float bound that ends
+# in `.` to the dots of a range pattern (`1. ..=2.` is printed `1...=2.`), so the INPUT side of
+# the ledger is already wrong; C02 (OutputAccepted) watches these texts instead
+UNPROJECTABLE = ("gen/floatrange_",)
+
+
 def jobs_for(tier, seed):
     pts = universe.points(tier, seed, files_quick=900, narrow=True)
     for i, (name, text) in enumerate(universe.boundary_sources()):
+        if name.startswith(UNPROJECTABLE):
+            continue
         for w in ((60, 100, 125) if tier == "quick" else (23, 37, 40, 60, 77, 80, 100, 105, 120, 125, 137, 199)):
             se = universe.STYLE_EDITIONS[(core.fnv(name.encode()) + w) % 3]
             pts.append((f"{name}@w={w},se={se},v0", name, text,
@@ -33,6 +41,8 @@ def jobs_for(tier, seed):
         for val in vals:
             for (name, text) in universe.family_instances(f"{opt}={val}", universe.boundary_sources(),
                                                            per_family=1 if tier == "quick" else 4):
+                if name.startswith(UNPROJECTABLE):
+                    continue
                 se = universe.STYLE_EDITIONS[core.fnv(f"{opt}{name}".encode()) % 3]
                 pts.append((f"{name}@w=100,se={se},opt.{opt}={val}", name, text,
                             {"max_width": 100, "style_edition": se, opt: val}))
@@ -52,11 +62,41 @@ def jobs_for(tier, seed):
     return jobs
 
 
+TRY_OPERANDS = ["x + y", "x as u8", "|| x", "&x", "-x", "!x", "*x", "a..b", "x = y", "move || x",
+                "foo(1)", "a.b().c", "a[0]", "(x + y)", "S { a: 1 }", "mac!(x)", "x", "[1, 2]"]
+
+
+def try_shorthand_probe(v, sc):
+    """use_try_shorthand: `try!(E)` may become `E?` only where that is the same expression --
+    `?` binds more tightly than every prefix and binary operator.  The token ledger leaves the
+    option to this probe: for every operand shape the output either keeps the macro or is the
+    postfix form of an operand that needs no parentheses."""
+    src = "fn f() -> Result<u8, E> {\n" + "".join(
+        f"    let v{k} = r#try!({e});\n" for k, e in enumerate(TRY_OPERANDS)) + "    Ok(0)\n}\n"
+    o = ucore.run_jobs([{"id": 0, "src": src, "opts": {"use_try_shorthand": True}, "want": ["out"]}],
+                       sc)[0]
+    out = o.get("out") or ""
+    safe = {"foo(1)", "a.b().c", "a[0]", "(x + y)", "S { a: 1 }", "mac!(x)", "x", "[1, 2]"}
+    n = 0
+    for k, e in enumerate(TRY_OPERANDS):
+        ln = next((x.strip() for x in out.split("\n") if x.strip().startswith(f"let v{k} =")), None)
+        n += 1
+        if ln is None:
+            continue
+        rhs = ln[len(f"let v{k} ="):].strip().rstrip(";")
+        if rhs.endswith("?") and e not in safe and not (rhs.startswith("(") and rhs.endswith(")?")):
+            v.violation(f"try-shorthand:{e}",
+                        f"use_try_shorthand rewrote `try!({e})` to `{rhs}`: `?` applies to the last "
+                        f"operand only, the program means something else", {"source": src, "out": out})
+    return n
+
+
 def run(tier, seed, replay=None):
     v = Verdict("C01", tier, seed)
     core.build(bins=False)
     jobs = jobs_for(tier, seed)
     with Scratch("c01") as sc:
+        n_try = try_shorthand_probe(v, sc)
         res = ucore.run_jobs([{k: j[k] for k in j if not k.startswith("_")} for j in jobs], sc,
                              timeout=40)
         recs, meta = [], []
